@@ -112,7 +112,50 @@ template <size_t K> struct ROp {
     }
 };
 
-template <size_t K> static std::string goK(const Case& c) { ROp<K> op(c.op, c.extra); return run_two<ruint<K>, IOR<K> >(c, op); }
+// SUB-OBJECT aliasing: a ruint<K> operand that is the Low / High half of the double-width object the call also takes.
+//   lmul.sub (wl, wh, b, c)  lsquare.sub (wl, wh, b)  laddmul.sub (wl, wh, b, c, d)  left_shift.sub (wl, wh, a) + count:
+//        W = (wh|wl) is the ruint<K+1> destination; an operand whose class index equals that of wl (wh) IS W.Low (W.High)
+//   mod_n.sub (a, bl, bh, n): mod_n(a, B, n) with the ruint<K+1> dividend B = (bh|bl); a destination a whose class index
+//        equals that of bl (bh) IS B.Low (B.High)
+template <size_t K> static std::string run_wide(const Case& c) {
+    typedef ruint<K> E; typedef ruint<K + 1> WE;
+    std::ostringstream out;
+    unsigned long s = c.extra.empty() ? 0 : strtoul(c.extra[0].c_str(), 0, 10);
+    for (int pass = 0; pass < 2; ++pass) {
+        std::vector<E> own(c.n);
+        for (int k = 0; k < c.n; ++k) own[k] = IOR<K>::parse(c.vals[k][0] == '~' ? c.vals[k].substr(1) : c.vals[k]);
+        std::vector<int> idx(c.n);
+        for (int k = 0; k < c.n; ++k) idx[k] = pass == 0 ? k : c.idx[k];
+        if (pass == 1) {      // class values: a read operand gives its class the value
+            std::map<int, E> cv;
+            for (int k = 0; k < c.n; ++k) if (c.vals[k][0] == '~') cv[idx[k]] = own[k];
+            for (int k = 0; k < c.n; ++k) if (c.vals[k][0] != '~') cv[idx[k]] = own[k];
+            for (int k = 0; k < c.n; ++k) own[k] = cv[idx[k]];
+        }
+        WE W; std::vector<E*> o(c.n);
+        int lo = c.op == "mod_n.sub" ? 1 : 0, hi = lo + 1;
+        W.Low = own[lo]; W.High = own[hi];
+        for (int k = 0; k < c.n; ++k) {
+            int j = k;
+            for (int m = 0; m < k; ++m) if (idx[m] == idx[k]) { j = m; break; }      // first position of the class
+            o[k] = j == lo ? &W.Low : j == hi ? &W.High : &own[j];
+        }
+        if (c.op == "lmul.sub") lmul(W, *o[2], *o[3]);
+        else if (c.op == "lsquare.sub") lsquare(W, *o[2]);
+        else if (c.op == "laddmul.sub") laddmul(W, *o[2], *o[3], *o[4]);
+        else if (c.op == "left_shift.sub") left_shift(W, *o[2], (unsigned int) s);
+        else if (c.op == "mod_n.sub") mod_n(*o[0], W, *o[3]);
+        else return "UNKNOWN-OP";
+        out << (pass ? " | A" : "F");
+        for (int k = 0; k < c.n; ++k) out << " " << IOR<K>::show(*o[k]);
+        if (pass == 0) emit_partial(out);
+    }
+    return out.str();
+}
+template <size_t K> static std::string goK(const Case& c) {
+    if (c.op.size() > 4 && c.op.compare(c.op.size() - 4, 4, ".sub") == 0) return run_wide<K>(c);
+    ROp<K> op(c.op, c.extra); return run_two<ruint<K>, IOR<K> >(c, op);
+}
 static std::string goR(const Case& c) {
     int K = atoi(c.param.c_str());
     switch (K) {
